@@ -22,6 +22,11 @@ pub struct Case {
     /// the bytes the caller's RNG hands out are this hex string instead of the seeded ones (boundary witness)
     #[serde(default)]
     pub rng_hex: Option<String>,
+    /// equality relations between inputs that are otherwise independent (0 = none): 1 psk_id == info, 2 psk == info,
+    /// 3 psk == psk_id, 4 psk == psk_id == info == every aad, 5 every aad == info (and one exporter context == info),
+    /// 6 info == the recipient's public key bytes, 7 psk_id == the encapsulated-key-sized prefix of info
+    #[serde(default)]
+    pub equal: u8,
 }
 
 pub struct C02 {
@@ -66,13 +71,13 @@ impl Part for C02 {
         "E1-lockstep-R1".into()
     }
     fn rule(&self) -> String {
-        "cartesian product suite x mode x info length x (psk,psk_id) shape x message-shape sequence x fill; each case runs the implementation sender against R1 (enc, every ciphertext via alternating seal APIs, 20 exports) and the implementation receiver against R1-produced enc/ciphertexts; non-trivial = at least one non-empty output compared".into()
+        "cartesian product suite x mode x info length x (psk,psk_id) shape x message-shape sequence x fill; each case runs the implementation sender against R1 (enc, every ciphertext via alternating seal APIs, 20 exports) and the implementation receiver against R1-produced enc/ciphertexts (with corrupted copies delivered in between), the four single-shot forms against the same wire data; non-trivial = at least one non-empty output compared".into()
     }
     fn bound(&self, cfg: &Cfg) -> String {
         if cfg.tier.thorough() {
-            "48 suites x 4 modes x 6 info lengths x 5 psk shapes (psk modes) x 6 message sequences (up to 25 messages) x 2 of 5 fills rotating".into()
+            "48 suites x 4 modes x 6 info lengths x 5 psk shapes (psk modes) x 6 message sequences (up to 25 messages) x 2 of 5 fills rotating; 7 equality relations between inputs x 48 suites x modes".into()
         } else {
-            "48 suites x 4 modes x 2 info lengths x 2 psk shapes (psk modes) x 3 message sequences x 1 fill".into()
+            "48 suites x 4 modes x 2 info lengths x 2 psk shapes (psk modes) x 3 message sequences x 1 fill; 7 equality relations between inputs x 16 suites x modes".into()
         }
     }
     fn enumerate(&self, cfg: &Cfg) -> Vec<Case> {
@@ -97,10 +102,25 @@ impl Part for C02 {
                                 vec![FILLS_QUICK[(tag % 2) as usize]]
                             };
                             for fill in fills {
-                                v.push(Case { suite, mode, info_len, psk_len, psk_id_len, msgs: msgs.clone(), fill, tag, rng_hex: None });
+                                v.push(Case { suite, mode, info_len, psk_len, psk_id_len, msgs: msgs.clone(), fill, tag, rng_hex: None, equal: 0 });
                             }
                         }
                     }
+                }
+            }
+        }
+        // inputs that happen to be EQUAL to one another (they are independent in the RFC; nothing may key on the relation)
+        for suite in all_suites() {
+            if !(t || suite.kdf == suite.kem.kdf()) {
+                continue;
+            }
+            for mode in MODES {
+                for equal in 1..=7u8 {
+                    if !mode.has_psk() && matches!(equal, 1 | 2 | 3 | 4 | 7) {
+                        continue;
+                    }
+                    tag += 1;
+                    v.push(Case { suite, mode, info_len: 17, psk_len: if mode.has_psk() { 17 } else { 0 }, psk_id_len: if mode.has_psk() { 17 } else { 0 }, msgs: vec![(9, 17), (0, 17)], fill: Fill::Mix, tag, rng_hex: None, equal });
                 }
             }
         }
@@ -109,7 +129,7 @@ impl Part for C02 {
             if suite.kem == crate::refmodel::Kem::P256 && suite.kdf == crate::refmodel::Kdf::Sha256 {
                 for mode in MODES {
                     tag += 1;
-                    v.push(Case { suite, mode, info_len: 3, psk_len: if mode.has_psk() { 32 } else { 0 }, psk_id_len: if mode.has_psk() { 4 } else { 0 }, msgs: vec![(5, 1)], fill: Fill::Mix, tag, rng_hex: Some(super::c03::P256_RETRY_WITNESS_32.into()) });
+                    v.push(Case { suite, mode, info_len: 3, psk_len: if mode.has_psk() { 32 } else { 0 }, psk_id_len: if mode.has_psk() { 4 } else { 0 }, msgs: vec![(5, 1)], fill: Fill::Mix, tag, rng_hex: Some(super::c03::P256_RETRY_WITNESS_32.into()), equal: 0 });
                 }
             }
         }
@@ -126,8 +146,25 @@ impl Part for C02 {
         // PSK material: all-zero psk is a legal psk; keep psk != psk_id (different tags)
         let psk = bytes(c.fill, c.psk_len, 11, cfg.seed ^ 0xabcd);
         let psk_id = bytes(c.fill, c.psk_id_len, 12, cfg.seed ^ 0x1234);
+        let (mut info, mut psk, mut psk_id) = (info, psk, psk_id);
+        match c.equal {
+            1 => psk_id = info.clone(),
+            2 => psk = info.clone(),
+            3 => psk = psk_id.clone(),
+            4 => {
+                psk = info.clone();
+                psk_id = info.clone();
+            }
+            6 => info = k.pk_r.clone(),
+            7 => {
+                info = [&k.pk_r[..], b"/session"].concat();
+                psk_id = k.pk_r.clone();
+            }
+            _ => {}
+        }
+        let (info, psk, psk_id) = (info, psk, psk_id);
         let m = mode_spec(c.mode, &k, &psk, &psk_id);
-        out.outcome = format!("{:?}/{}", c.mode, c.suite.aead.name());
+        out.outcome = format!("{:?}/{}{}", c.mode, c.suite.aead.name(), if c.equal > 0 { "/equal-inputs" } else { "" });
 
         // ---------------- direction S: implementation sender vs R1 ----------------
         let (enc_ref, mut ref_s) = match r1_setup_s(c.suite, &m, &k.pk_r, &info, &k.ikm_e) {
@@ -155,7 +192,7 @@ impl Part for C02 {
         if c.suite.aead.can_seal() {
             for (i, &(pl, al)) in c.msgs.iter().enumerate() {
                 let pt = bytes(c.fill, pl, 100 + i as u64, cfg.seed);
-                let aad = bytes(c.fill, al, 200 + i as u64, cfg.seed);
+                let aad = if matches!(c.equal, 4 | 5) { info.clone() } else { bytes(c.fill, al, 200 + i as u64, cfg.seed) };
                 let want = ref_s.seal(&aad, &pt).unwrap();
                 let got = if i % 2 == 0 {
                     s.seal(&pt, &aad)
@@ -185,6 +222,13 @@ impl Part for C02 {
                 if l == nh + 1 {
                     transcript_exports.push((ectx.clone(), l, want));
                 }
+            }
+        }
+        if c.equal > 0 {
+            // exporter context equal to the info string / to the psk_id
+            for ectx in [&info, &psk_id] {
+                let want = ref_s.export(ectx, nh + 1).unwrap();
+                expect_bytes(&mut out, "sender export(ctx = another input of the session)", &s.export(ectx, nh + 1), &want);
             }
         }
         out.check("no RNG draws after setup", rng.drawn() == drawn_setup);
@@ -220,6 +264,24 @@ impl Part for C02 {
             Ok(mut r) => {
                 for (i, ct) in cts.iter().enumerate() {
                     let (pt, aad, _) = &transcript_msgs[i];
+                    // a real channel also delivers garbage: a rejected copy right before the genuine message (every third
+                    // message, through the other API) must not change what the receiver does with the genuine one
+                    if i % 3 == 1 {
+                        let mut bad = ct.clone();
+                        let l = bad.len();
+                        bad[l - 1] ^= 1;
+                        let nt = c.suite.aead.nt();
+                        let rej = if i % 2 == 0 {
+                            r.open(&bad, aad).map(|_| ())
+                        } else {
+                            let mut buf = bad[..l - nt].to_vec();
+                            r.open_ip(&mut buf, aad, &bad[l - nt..])
+                        };
+                        out.transitions += 1;
+                        if rej != Obs::Err(hpke::HpkeError::OpenError) {
+                            out.fail(format!("receiver: corrupted copy of R1 ciphertext #{}: {} want Err(OpenError)", i, rej.class()));
+                        }
+                    }
                     let got = if i % 2 == 1 {
                         r.open(ct, aad)
                     } else {
@@ -246,6 +308,22 @@ impl Part for C02 {
                 out.transitions += 1;
                 out.fail(e);
             }
+        }
+
+        // ---------------- the single-shot forms against R1's wire data ----------------
+        if c.suite.aead.can_seal() && !transcript_msgs.is_empty() && c.tag % 2 == 0 {
+            let (pt, aad, ct) = &transcript_msgs[0];
+            let nt = c.suite.aead.nt();
+            let mut rng = ScriptRng::new(&k.ikm_e);
+            expect_bytes(&mut out, "single_shot_seal = R1's enc || first ciphertext", &ops.single_shot_seal(&m, &k.pk_r, &info, pt, aad, &mut rng).map(|(e, c)| [e, c].concat()), &[enc_ref.clone(), ct.clone()].concat());
+            let mut rng = ScriptRng::new(&k.ikm_e);
+            let mut buf = pt.clone();
+            let ss = ops.single_shot_seal_ip(&m, &k.pk_r, &info, &mut buf, aad, &mut rng).map(|(e, t)| [e, buf.clone(), t].concat());
+            expect_bytes(&mut out, "single_shot_seal_in_place_detached = R1's enc || first ciphertext", &ss, &[enc_ref.clone(), ct.clone()].concat());
+            expect_bytes(&mut out, "single_shot_open of R1's first ciphertext", &ops.single_shot_open(&m, &k.sk_r, &enc_ref, &info, ct, aad), pt);
+            let mut buf = ct[..ct.len() - nt].to_vec();
+            let so = ops.single_shot_open_ip(&m, &k.sk_r, &enc_ref, &info, &mut buf, aad, &ct[ct.len() - nt..]).map(|_| buf.clone());
+            expect_bytes(&mut out, "single_shot_open_in_place_detached of R1's first ciphertext", &so, pt);
         }
 
         // ---------------- transcript for R2 ----------------
